@@ -97,7 +97,7 @@ func runSeqOn(img *mono.MonoImg, W, H int, ops []mop) {
 	emit(L(Sym("seq"), W, H, opsx, bufs))
 }
 
-// runSeqFrom: canvas created with CreateFromBytes over a caller buffer of exactly ceil(W/8)*H bytes
+// runSeqFrom: canvas created with CreateFromBytes over a caller buffer of at least ceil(W/8)*H bytes
 // (padding bits may be set): emits (seqb W H #init (ops) (bufs)).
 func runSeqFrom(W, H int, init []byte, ops []mop) {
 	img := &mono.MonoImg{}
@@ -329,6 +329,53 @@ func genC16(tier string, rng *Rng) {
 		// shuffle lightly: start position random
 		st := rng.Intn(len(ops))
 		ops = append(ops[st:], ops[:st]...)
+		runSeqFrom(W, H, init, ops)
+	}
+	// 7b. byte-ALIGNED geometry under a bounding box that reaches beyond the canvas (seed C16-7: a bytewise
+	//     fast path for opaque bitmaps tests containment in the box only and lets a bitmap that straddles
+	//     the canvas edge wrap onto the next row): bitmaps / fills / lines whose x and width are multiples
+	//     of 8, every flag combination, boxes wider and higher than the canvas and starting at -8, -16
+	for _, W := range []int{12, 16, 20, 24} {
+		for _, H := range []int{3, 6} {
+			for _, bx := range []int{0, -8, -16, 8} {
+				for _, by := range []int{0, -2} {
+					var ops []mop
+					ops = append(ops, opBBox(bx, by, W+16-bx, H+8-by))
+					for _, w := range []int{8, 16, 24} {
+						for x := -8; x <= W+8; x += 8 {
+							fl := rng.Intn(8)
+							bm := make([]byte, w/8*2)
+							for i := range bm {
+								bm[i] = byte(rng.Pick([]int{0xFF, 0xFF, 0xA5, 0x81}))
+							}
+							ops = append(ops, opBM(x-bx, rng.Range(-1, H-1)-by, bm, w, 2, fl&1 != 0, fl&2 != 0, true),
+								opBM(x-bx, rng.Range(0, H)-by, bm, w, 2, true, false, fl&4 != 0))
+							if !thorough && len(ops) > 40 {
+								break
+							}
+						}
+						ops = append(ops, opFR(rng.Pick([]int{-8, 0, 8, 16})-bx, -by, w, H, rng.Bool()), opHL(rng.Pick([]int{0, 8, 16})-bx, rng.Range(0, H)-by, W+8, rng.Bool()))
+					}
+					c16stats["aligned-oversize-bbox"]++
+					chunked(W, H, ops[:1], ops[1:], 12)
+					init := rng.Bytes((W + 7) / 8 * H)
+					runSeqFrom(W, H, init, ops[:minInt(len(ops), 14)])
+				}
+			}
+		}
+	}
+	// 7c. CreateFromBytes over a slice LONGER than the canvas needs (seed C16-8: a pixel clipped only by
+	//     the bounding box and the buffer length reaches the bytes behind the canvas): the tail must never
+	//     change, whatever the bounding box
+	for n := 0; n < nf/3; n++ {
+		W, H := rng.Range(1, 24), rng.Range(1, 8)
+		init := rng.Bytes((W+7)/8*H + rng.Range(1, 9))
+		ops := []mop{opBBox(rng.Range(-2, 2), rng.Range(-2, 2), W+rng.Range(0, 20), H+rng.Range(1, 12)),
+			opFR(0, 0, W+4, H+12, true), opVL(rng.Range(0, W), rng.Range(-2, H), H+9, rng.Bool()), opPixel(rng.Range(0, W), H+rng.Range(0, 3), true)}
+		for k := rng.Range(0, 6); k > 0; k-- {
+			ops = append(ops, randOp(rng, W, H+4))
+		}
+		c16stats["from-long-bytes"]++
 		runSeqFrom(W, H, init, ops)
 	}
 	// 8. a USED object: drawn on with arbitrary settings at another size, then re-initialised with
